@@ -306,8 +306,12 @@ JudgeSet(fmt, chain, s, e) ==
       kk == Len(batch)
       N == Len(chain)
       el == chain[s.cur]
-      others == IF \E u \in 1..Len(s.sets) : u # t /\ Strip(e.sets[u]) # s.sets[u]
-                THEN {<<"C04", "other_record_set_changed">>} ELSE {}
+      \* a record set keeps its buffer for the next batch whatever the call returned (C18: "a reused record set"): only
+      \* shrink_buffer_to_fit gives memory back
+      others == (IF \E u \in 1..Len(s.sets) : u # t /\ Strip(e.sets[u]) # s.sets[u]
+                 THEN {<<"C04", "other_record_set_changed">>} ELSE {})
+                \cup (IF ~e.sets_panic /\ \E u \in 1..Len(s.setcap) : e.setcap[u] < s.setcap[u]
+                      THEN {<<"C18", "record_set_buffer_released">>} ELSE {})
       fabset == IF \E i \in 1..kk : ~Member(chain, batch[i], FALSE) THEN {<<"C06", "fabricated_record_in_set">>} ELSE {}
       keep == [s EXCEPT !.sets[t] = Strip(batch), !.ctx = @ \cup {"mixed"}, !.setcap = e.setcap]
       MustRec(i) == i <= N /\ chain[i].okRec /\ chain[i].errs = {} /\ ~chain[i].okEnd
@@ -423,5 +427,12 @@ Judge(fmt, chain, s, e) ==
       cap2 == IF e.cap >= 0 THEN e.cap ELSE CapAfter(s, e)
       ctx2 == core.s.ctx \cup (IF e.op # "serde_set" /\ SrcErrs(e) # {} THEN {"fault"} ELSE {})
                          \cup (IF e.res.k = "buffer_limit" THEN {"limit"} ELSE {})
-  IN [viol |-> core.viol \cup env \cup SetLenViol(e), s |-> [core.s EXCEPT !.cap = cap2, !.ctx = ctx2]]
+      \* C11 (and its FASTA counterpart) promise that the records of a well-formed input, written unchanged one after the
+      \* other, reproduce it: a well-formed input that is not parsed as the format rules say (a record lost or altered, an
+      \* error, an early end) cannot be reproduced that way
+      wellFormed == \A i \in 1..Len(chain) : (chain[i].okRec /\ chain[i].errs = {} /\ ~chain[i].zone)
+                                             \/ (i = Len(chain) /\ chain[i].okEnd /\ ~chain[i].okRec /\ chain[i].errs = {})
+      c11 == IF (\E x \in core.viol : x[1] \in {"C01", "C02"}) /\ wellFormed
+             THEN {<<"C11", "well_formed_input_not_parsed_as_written">>} ELSE {}
+  IN [viol |-> core.viol \cup env \cup SetLenViol(e) \cup c11, s |-> [core.s EXCEPT !.cap = cap2, !.ctx = ctx2]]
 =============================================================================
